@@ -55,11 +55,11 @@ PROPS = {
         explanation='Lock table kernel proved; statement-level behaviour (which rows a statement locks, undo) bounded. Threads not covered.',
     ),
     'C10': dict(
-        v=['C10_fold', 'C10_walfile', 'C01_raft'], k=[], b=['c10_raftwal'],
-        pairs={'C10_fold': ['bounded:c10_raftwal'], 'C10_walfile': ['bounded:c10_raftwal']},
+        v=['C10_fold', 'C10_walfile', 'C10_append', 'C01_raft'], k=[], b=['c10_raftwal'],
+        pairs={'C10_fold': ['bounded:c10_raftwal'], 'C10_walfile': ['bounded:c10_raftwal'], 'C10_append': ['bounded:c10_raftwal']},
         level='other',
-        technique='Verus: extracted RaftRecoveryState::from_entries proved equal to term/vote and log folds written from the property + stickiness lemmas',
-        claim='recovered (term, vote) = highest acted-on term and the FIRST vote recorded in it, recovered log = appended entries after truncations in index order, for every WAL entry sequence (Verus; BTreeMap by assumed contract)',
+        technique='Verus: extracted RaftRecoveryState::from_entries proved equal to term/vote and log folds written from the property + stickiness lemmas; the open scan RaftWal::count_entries proved equal to the whole-record prefix (torn tail dropped on reopen); the writer RaftWal::{write_entry_bytes, append_entry} proved to emit exactly one record, flushed and fsynced before Ok, at most a torn record on failure; every Raft handler proved to persist (term, vote) before applying it (unit C01.raft, ghost WAL image); bounded native checks of restart sequences at every byte cut of real WAL files',
+        claim='recovered (term, vote) = highest acted-on term and the FIRST vote recorded in it, recovered log = appended entries after truncations in index order, for every WAL entry sequence; reopen keeps exactly the whole records; an acknowledged append is one whole fsynced record; handlers answer only with durable (term, vote) (all Verus; BTreeMap, file I/O, crc and codec by assumed contract); BOUNDED: open/replay/restart contracts on real files at every cut point of scripted runs',
         explanation='Recovery fold proved for all entry sequences; file-level crash/restart sequences are bounded.',
     ),
     'C12': dict(
